@@ -99,9 +99,10 @@ Section Top.
   Variable slm : slmode.
   Variable dfm ddm : N.
   Variable own : bool.
+  Variable fixed : bool.
 
   Definition final (fs0 : node) (stg : store) (plan : list change) : tstate :=
-    fst (transition norm E rn ch slm dfm ddm own fs0 stg plan).
+    fst (transition norm E rn ch slm dfm ddm own fixed fs0 stg plan).
 
   Definition plan_paths_ok (plan : list change) : Prop :=
     Forall (fun c => Forall (fun k => listed_name k = true) (cpath c)) plan.
@@ -130,14 +131,14 @@ Section Top.
   Proof.
     intros plan fs0 stg c e0 q y Hrn Hs Hd Hpp Hq Hin CO Hg HU HV.
     unfold final, transition.
-    destruct (trans_loop norm E rn ch slm dfm ddm own plan (init_state fs0 stg)) as [s' rs] eqn:TL.
+    destruct (trans_loop norm E rn ch slm dfm ddm own fixed plan (init_state fs0 stg)) as [s' rs] eqn:TL.
     cbn [fst].
     assert (Forall (item_ok norm ch slm y (cpath c ++ q)) plan) as Hit.
     { eapply items_ok_of_disjoint; try eassumption. apply plan_paths_path_ok. exact Hpp. }
     split.
-    - exact (trans_loop_keeps norm E rn ch slm dfm ddm own Hrn (rn :: cpath c ++ q) y (cpath c ++ q)
+    - exact (trans_loop_keeps norm E rn ch slm dfm ddm own fixed Hrn (rn :: cpath c ++ q) y (cpath c ++ q)
                eq_refl plan _ _ _ TL Hit Hs Hg).
-    - pose proof (trans_loop_reports norm E rn ch slm dfm ddm own Hrn (rn :: cpath c ++ q) y
+    - pose proof (trans_loop_reports norm E rn ch slm dfm ddm own fixed Hrn (rn :: cpath c ++ q) y
                     (cpath c ++ q) eq_refl plan c e0 q _ _ _ TL Hit Hs Hg Hin CO eq_refl HV Hq)
         as (q1 & k & H1 & H2).
       exists q1, k. split; assumption.
